@@ -191,6 +191,9 @@ class CSSUnknownRule(cssrule.CSSRule):
                     'STRING': STRING,
                     'URI': URI,
                     'S': default,  # overwrite default default!
+                    # kept as it is, no rule in the rule (else an object per
+                    # at-keyword and a parse per nesting level)
+                    'ATKEYWORD': default,
                 },
                 default=default,
                 new=new,
